@@ -297,9 +297,13 @@ class Program:
                     for e in lst:
                         e.mf = e.mf.crate
                 ci = {n: [(a, b.crate, c, d) for a, b, c, d in v] for n, v in self.const_items.items()}
-                with open(cpath + '.tmp', 'wb') as fh:
-                    pickle.dump((key, self.by_simple, self.closures, ci), fh)
-                os.replace(cpath + '.tmp', cpath)
+                tmp = '%s.tmp.%d' % (cpath, os.getpid())      # two checks may build the index at the same time
+                try:
+                    with open(tmp, 'wb') as fh:
+                        pickle.dump((key, self.by_simple, self.closures, ci), fh)
+                    os.replace(tmp, cpath)
+                except OSError:
+                    pass                                      # the cache is an optimisation only
             finally:
                 for lst in self.by_simple.values():
                     for e in lst:
